@@ -769,3 +769,118 @@ Qed.
 Lemma linearization_arrival_order s rs ord :
   In ord (linearizations (all_events s rs)) -> arrival_order s rs ord.
 Proof. intros Hord e. apply linearizations_In. exact Hord. Qed.
+
+(* ------------------------------------------------------------------------------------------ *)
+(* Never-win and no-winner statements. *)
+
+Lemma winner_has_nonzero_score cfgs fw w :
+  st_win (collect cfgs fw) = Some w -> p_score w = score cfgs (p_bid w) /\ p_score w <> 0%Z.
+Proof.
+  intros Hw. destruct (collect_inv cfgs fw) as [_ Hs]. destruct (Hs w Hw) as (H1 & _ & H3 & _). split; assumption.
+Qed.
+
+Lemma winner_is_acceptable cfgs s rs ord w :
+  arrival_order s rs ord -> st_win (result_of cfgs s ord) = Some w ->
+  exists r t k,
+    In r rs /\ queried s r = true
+    /\ In (t, k, RBid (p_bid w)) (answered s r) /\ (t < cutoff s)%Z
+    /\ (b_value (p_bid w) <> 0 /\ r_min r <= b_value (p_bid w) /\ b_zero_recipient (p_bid w) = false
+        /\ b_ts_delta (p_bid w) = 0%Z /\ (forall key, eff_key r = Some key -> b_signer (p_bid w) = key))
+    /\ score cfgs (p_bid w) <> 0%Z
+    /\ bc_factor (conf_of cfgs (p_bid w)) <> Some 0%Z
+    /\ In (r_idx r) (st_providers (result_of cfgs s ord)).
+Proof.
+  intros Hord Hw.
+  destruct (winner_relay_first cfgs s rs ord w Hord Hw) as (r0 & rest & t & Hp & (r & k & Hr & Hi & Hq & Hin & Ht & He)).
+  destruct (winner_has_nonzero_score cfgs _ w Hw) as [Hs Hnz]. rewrite Hs in Hnz.
+  exists r, t, k.
+  split; [exact Hr|]. split; [exact Hq|]. split; [exact Hin|]. split; [exact Ht|].
+  split; [apply eligible_iff; exact He|]. split; [exact Hnz|]. split.
+  - intros Hf. apply (score_excluded cfgs) in Hf. contradiction.
+  - rewrite Hp, Hi. left. reflexivity.
+Qed.
+
+Lemma none_acceptable_no_winner cfgs s rs ord :
+  arrival_order s rs ord ->
+  (forall i b, acceptable s rs i b -> score cfgs b = 0%Z) ->
+  st_win (result_of cfgs s ord) = None /\ st_providers (result_of cfgs s ord) = []
+  /\ forall m x, In x (served m rs (result_of cfgs s ord)) -> x = None.
+Proof.
+  intros Hord Hall.
+  assert (Hw : st_win (result_of cfgs s ord) = None).
+  { destruct (st_win (result_of cfgs s ord)) as [w|] eqn:Hw; [|reflexivity]. exfalso.
+    destruct (winner_relay_first cfgs s rs ord w Hord Hw) as (r0 & rest & t & _ & Ha).
+    destruct (winner_has_nonzero_score cfgs _ w Hw) as [Hs Hnz]. rewrite Hs in Hnz.
+    apply Hnz, (Hall r0). exists t. exact Ha. }
+  split; [exact Hw|]. split; [apply no_winner_no_providers; exact Hw|].
+  intros m x Hin. apply served_is_winner in Hin; [|intros w Hw'; rewrite Hw in Hw'; discriminate Hw'].
+  rewrite Hw in Hin. exact Hin.
+Qed.
+
+(* no relay configured: auctionBlock does not run the strategy *)
+Lemma no_relays_no_winner cfgs s m x :
+  st_win (auction_state cfgs s []) = None /\ (In x (served m [] (auction_state cfgs s [])) -> x = None).
+Proof.
+  split; [reflexivity|]. cbn [auction_state]. destruct m; cbn; intuition.
+Qed.
+
+(* ------------------------------------------------------------------------------------------ *)
+(* The known finding: witnesses. *)
+
+Definition wit_bid (uid value builder header : N) : bid :=
+  {| b_uid := uid; b_value := value; b_builder := builder; b_zero_recipient := false;
+     b_ts_delta := 0%Z; b_signer := 1; b_header := header |}.
+
+(* one relay; first answer: 10 wei from builder 1; re-fetched answer: 9 wei from builder 2 *)
+Definition wit_relay : relay :=
+  {| r_idx := 0; r_kind := KFull; r_min := 0; r_cfg_key := None; r_adv_key := None; r_grace := 0%Z;
+     r_script := [(16%Z, RBid (wit_bid 1 10 1 3)); (16%Z, RBid (wit_bid 2 9 2 6))] |}.
+
+(* builder 2 is preferred (factor 200): 9 wei score 18 *)
+Definition wit_cfgs_prefer : bconfs := [(2, {| bc_cat := 3; bc_offset := None; bc_factor := Some 200%Z |})].
+(* builder 1 is excluded (factor 0): 10 wei score 0 *)
+Definition wit_cfgs_exclude : bconfs := [(1, {| bc_cat := 1; bc_offset := None; bc_factor := Some 0%Z |})].
+
+Lemma wit_second_acceptable : acceptable (Deadline 100 16) [wit_relay] 0 (wit_bid 2 9 2 6).
+Proof.
+  exists 48%Z, wit_relay, 1. repeat split.
+  - left. reflexivity.
+  - vm_compute. right. left. reflexivity.
+Qed.
+
+Lemma deadline_refuted_lower_winner :
+  exists cfgs D gap rs w j b,
+    st_win (strategy_result cfgs (Deadline D gap) rs) = Some w
+    /\ acceptable (Deadline D gap) rs j b /\ (p_score w < score cfgs b)%Z.
+Proof.
+  exists wit_cfgs_prefer, 100%Z, 16%Z, [wit_relay].
+  eexists. exists 0, (wit_bid 2 9 2 6). split; [vm_compute; reflexivity|].
+  split; [exact wit_second_acceptable | vm_compute; reflexivity].
+Qed.
+
+Lemma deadline_refuted_no_winner :
+  exists cfgs D gap rs j b,
+    st_win (strategy_result cfgs (Deadline D gap) rs) = None
+    /\ acceptable (Deadline D gap) rs j b /\ score cfgs b <> 0%Z.
+Proof.
+  exists wit_cfgs_exclude, 100%Z, 16%Z, [wit_relay], 0, (wit_bid 2 9 2 6).
+  split; [vm_compute; reflexivity|]. split; [exact wit_second_acceptable | vm_compute; discriminate].
+Qed.
+
+Lemma deadline_refuted :
+  exists cfgs D gap rs,
+    ~ winner_is_max cfgs (acceptable (Deadline D gap) rs) (st_win (strategy_result cfgs (Deadline D gap) rs)).
+Proof.
+  exists wit_cfgs_prefer, 100%Z, 16%Z, [wit_relay]. intros H.
+  change (st_win (strategy_result wit_cfgs_prefer (Deadline 100 16) [wit_relay]))
+    with (Some {| p_score := 10%Z; p_cat := 0; p_bid := wit_bid 1 10 1 3 |}) in H.
+  destruct H as (_ & _ & _ & _ & Hmax).
+  specialize (Hmax 0 (wit_bid 2 9 2 6) wit_second_acceptable). vm_compute in Hmax.
+  apply Hmax; [discriminate | reflexivity].
+Qed.
+
+(* the witnesses are in the excluded class *)
+Lemma wit_suppressed :
+  no_suppressed wit_cfgs_prefer wit_relay None (answered (Deadline 100 16) wit_relay) = false
+  /\ no_suppressed wit_cfgs_exclude wit_relay None (answered (Deadline 100 16) wit_relay) = false.
+Proof. split; vm_compute; reflexivity. Qed.
